@@ -1,5 +1,6 @@
 import JunoModel.Common.Proto
 import JunoModel.C06.Model
+import JunoModel.C06.ModelFeed
 /-!
 Line-protocol driver for the C06 model (`lake build c06drv`).
 
@@ -18,6 +19,9 @@ by the harness, 0 = felt.Zero). Chains are written GENESIS FIRST.
   isrev NEXT (N H | -) loc B*   -> `none` | `some <lpv>`
   succ B loc B*           -> stored | badNumber | parentMismatch
   sub64 A B               -> decimal
+  feed-init fresh|len     fresh feed model (id scheme; `fresh` is the code)                          -> ok
+  feed sub K | feed unsub H | feed send V | feed recv H   one feed operation (K = keep-last 0/1, H = handle)
+                          -> h<handle> | ok | val V | empty | closed | bad-handle
   cfg Z N C               model variant (zeroGuard numCheck confirmHead, 0/1); default = `Cfg.asFound`  -> ok
 -/
 open Juno.Proto Juno.C06
@@ -61,12 +65,29 @@ def specEv? : List String → Option SEv
     pure (.obs (.reorg ⟨← a.toNat?, ← b.toNat?, ← c.toNat?, ← d.toNat?⟩))
   | _ => none
 
+def bit? (s : String) : Option Bool :=
+  if s == "1" then some true else if s == "0" then some false else none
+
 structure St where
   cfg : Cfg
   spec : Spec
+  feed : Feed.Feed := Feed.init
+  gen : Feed.IdGen := .fresh
 
-def bit? (s : String) : Option Bool :=
-  if s == "1" then some true else if s == "0" then some false else none
+def showFeedOut : Feed.Out → String
+  | .handle h => s!"h{h}"
+  | .ok => "ok"
+  | .val v => s!"val {v}"
+  | .empty => "empty"
+  | .closed => "closed"
+  | .badHandle => "bad-handle"
+
+def feedOp? : List String → Option Feed.Op
+  | ["sub", k] => (bit? k).map .subscribe
+  | ["unsub", h] => h.toNat?.map .unsubscribe
+  | ["send", v] => v.toNat?.map .send
+  | ["recv", h] => h.toNat?.map .recv
+  | _ => none
 
 def stepSpec (cfg : Cfg) (strict : Bool) (s : Spec) (line : String) : Spec × String :=
   match words line with
@@ -136,9 +157,17 @@ def stepLine (st : St) (line : String) : St × String :=
     match bit? z, bit? n, bit? c with
     | some z, some n, some c => ({ st with cfg := ⟨z, n, c⟩ }, "ok")
     | _, _, _ => (st, "bad-op")
+  | ["feed-init", g] =>
+    if g == "fresh" then ({ st with feed := Feed.init, gen := .fresh }, "ok")
+    else if g == "len" then ({ st with feed := Feed.init, gen := .lenOfMap }, "ok")
+    else (st, "bad-op")
+  | "feed" :: ws =>
+    match feedOp? ws with
+    | none => (st, "bad-op")
+    | some op => let r := Feed.step st.gen st.feed op; ({ st with feed := r.1 }, showFeedOut r.2)
   | ["cfg?"] => (st, s!"{st.cfg.zeroGuard} {st.cfg.numCheck} {st.cfg.confirmHead}")
   | _ =>
     -- the acceptor is strict (no revert on a successor block) exactly when the code confirms the head
     let (s', out) := stepSpec st.cfg st.cfg.confirmHead st.spec line; ({ st with spec := s' }, out)
 
-def main : IO Unit := loop stepLine ⟨Cfg.asFound, Spec.init []⟩
+def main : IO Unit := loop stepLine { cfg := Cfg.asFound, spec := Spec.init [] }
